@@ -1,4 +1,5 @@
 import SctpVerif.Spec.E2ESpec
+import SctpVerif.Gen.Consts
 import SctpVerif.Driver.Util
 /-! line protocol for the `e2e …` logs: only predicates (no L0 model result) -/
 namespace Drv.E2E
@@ -14,9 +15,38 @@ def step (st : St) (op impl : List String) : St × List String :=
   | "new" :: mode :: _seed :: _idx :: rest =>
     let kv := kvs rest
     ({ active := true, mode := mode, hdr := kv, streams := parseStreams (get kv "streams") }, [])
-  | ["connect", _side] =>
+  | ["connect", side] =>
     match impl with
-    | r :: _ => if r == "nil" then ({ st with connected := st.connected + 1 }, []) else ({ st with connFail := true }, [])
+    | r :: _ =>
+      if r == "nil" then ({ st with connected := st.connected + 1 }, [])
+      else ({ st with connFail := true },
+        -- in handshake mode the fault pattern (≤ 3 faults on the first 8 packets) always leaves the retransmissions a chance
+        if st.mode == "handshake" then [s!"[C04] side {side} did not reach established ({r}) although every handshake packet had a chance to arrive within the retry budget"] else [])
+    | _ => (st, [])
+  | ["connectsilent", side] =>
+    let inits := st.pkts.fold (fun n (k : Nat × Nat) v => if k.1 == nat side && v.contains "INIT" then n + 1 else n) 0
+    match impl with
+    | [r, t] =>
+      (st, (if r == "nil" || r == "timeout" || nat t > 300000 then
+              [s!"[C04,C19] connect against a silent peer returned {r} after {t} ms instead of failing in bounded time"] else []) ++
+           (if inits != Gen.maxInitRetrans + 1 then
+              [s!"[C19,C04] INIT was transmitted {inits} times against a silent peer; the retry budget is 1 + {Gen.maxInitRetrans}"] else []))
+    | _ => (st, [])
+  | ["serverwait", side] =>
+    match impl with
+    | [r, t] => (st, if r == "nil" || r == "timeout" || nat t > 1000 then
+        [s!"[C04,C09] server-side call on side {side} returned {r} {t} ms after its transport was closed"] else [])
+    | _ => (st, [])
+  | ["open", dir, si, u, rt, rv] =>
+    let sp : StreamSpec := { id := nat si, unordered := u == "1", relType := nat rt, relVal := nat rv, dir := nat dir }
+    if impl == ["nil"] && !(st.streams.any fun x => x.id == sp.id && x.dir == sp.dir) then ({ st with streams := st.streams ++ [sp] }, []) else (st, [])
+  | ["rerr", side, si] =>
+    (if impl == ["EOF"] then { st with eofs := (nat side, nat si) :: st.eofs } else st, [])
+  | ["close", dir, si] =>
+    ({ st with closes := (nat dir, nat si) :: st.closes }, if impl != ["nil"] then [s!"[C14] Close of stream {si} on side {dir} returned {" ".intercalate impl}"] else [])
+  | ["resetdone", c] =>
+    match impl with
+    | r :: t :: _ => (st, if r != "true" then [s!"[C14] cycle {c}: {t} ms after start the closed streams are still registered: the reset handshake never completed in both directions"] else [])
     | _ => (st, [])
   | ["meta", side] => ({ st with metas := st.metas ++ [(nat side, kvs impl)] }, [])
   | ["w", dir, si, _seq, ppi, len, hash] =>
@@ -68,7 +98,9 @@ def step (st : St) (op impl : List String) : St × List String :=
   | ["end", side] =>
     let kv := kvs impl
     let v := if st.connFail || st.connected < 2 then [] else
-      if st.mode == "shutdown" then
+      if st.mode == "handshake" && getN kv "state" != 3 then
+        [s!"[C04] side {side} left the established state (state {getN kv "state"}) after stale handshake packets arrived"]
+      else if st.mode == "shutdown" then
         (if getN kv "state" != 0 then [s!"[C08] side {side} is in state {getN kv "state"} (not closed) after the shutdown sequence and transport close"] else [])
       else
       (if getN kv "buffered" != 0 || getN kv "pending" != 0 || getN kv "inflight" != 0 then
